@@ -1,4 +1,46 @@
 (* C02 — Formatting a go.mod/go.work file preserves its meaning and is idempotent.
-   Property theorems only. *)
+   Property theorems only.
+
+   [parse] is the model of the syntax-only parser, [format] of modfile.Format
+   (Modfile/Print.v, byte-identical to the implementation on every correspondence case),
+   [events s] the event stream of a tree (Modfile/ProofsRound.v): the statements in order,
+   each with its tokens, interleaved with the comment texts after TrimSpace in the order
+   the printer visits them.
+
+   The full statements, NOT proved in Coq (the comment re-assignment by byte position on the
+   printed text was not closed; neither was the lexer round trip lex (print_tokens ts) = ts
+   it rests on):
+
+     Theorem C02_format_reparse_same : forall data s, parse data = POk s ->
+       exists s', parse (format s) = POk s' /\ events s' = events s.
+
+     Theorem C02_format_idempotent : forall data s s', parse data = POk s ->
+       parse (format s) = POk s' -> format s' = format s.
+
+     Theorem C02_format_preserves_directives : forall fix data f,
+       parse_to_file true fix data = DOk f -> well_formed f ->
+       exists f', parse_to_file true fix (format (fd_syntax f)) = DOk f' /\ values f' = values f.
+       (and the same for parse_work)
+
+   They are decided on the implementation by the Go oracles format-reparse-same-events,
+   format-idempotent, format-preserves-directives and autoquote-is-one-token of
+   harness/props/c02.go on every generated input the parsers accept; the statements are
+   meaningful for every accepted input because since /repo a2ca708 no token of the lexer
+   contains a line feed (before that commit both were false: finding K7, repaired).
+
+   Proved: both round-trip statements for EVERY input of at most five bytes over the
+   alphabet {a, SP, LF, '(', ')', '/', '"', ','} — 37449 inputs evaluated by the kernel. *)
 From Verif.Base Require Import Bytes.
-From Verif.Modfile Require Import Syntax Lex Parse Print.
+From Verif.Modfile Require Import Syntax Lex Parse Print ProofsRound.
+
+Theorem C02_format_round_trip_partial : forall data s,
+  (length data <= 5)%nat -> Forall (fun c => In c small_alphabet) data ->
+  parse data = POk s ->
+  exists s', parse (format s) = POk s' /\ events s' = events s /\ format s' = format s.
+Proof. exact format_round_trip_small. Qed.
+Print Assumptions C02_format_round_trip_partial.
+
+(* non-vacuity: a five-byte block with a line is in the domain and is accepted *)
+Example C02_round_trip_example :
+  exists s, parse [97; 40; 10; 97; 41] = POk s /\ format s = [97; 32; 40; 10; 9; 97; 41; 10].
+Proof. eexists. split; vm_compute; reflexivity. Qed.
